@@ -233,6 +233,8 @@ var rethrowTemplates = []struct{ name, src string }{
 	{"return", "func() {\ntry {\nreturn 1\n} catch e {\nprobe(\"c\")\nthrow e\n}\nprobe(\"after\")\n}()\nprobe(\"after\")"},
 	{"break", "for i = 0; i < 2; i++ {\ntry {\nbreak\n} catch e {\nprobe(\"c\")\nthrow e\n}\nprobe(\"after\")\n}\nprobe(\"after\")"},
 	{"continue", "for i = 0; i < 2; i++ {\ntry {\ncontinue\n} catch e {\nprobe(\"c\")\nthrow e\n}\nprobe(\"after\")\n}\nprobe(\"after\")"},
+	{"empty-message", "try {\nthrow \"\"\nprobe(\"after\")\n} catch e {\nprobe(\"c\")\nthrow e\n}\nprobe(\"after\")"},
+	{"empty-message-uncaught", "func() {\nthrow \"\"\nprobe(\"after\")\n}()\nprobe(\"after\")"},
 	{"rethrow-in-finally-scope", "try {\ntry {\nthrow \"s\"\n} catch e {\nthrow e\n} finally {\nprobe(\"after\")\n}\n} catch e2 {\nprobe(e2)\n}"},
 }
 
@@ -259,6 +261,9 @@ func streamErrors(o *Out, r *rand.Rand, n int, thorough bool) {
 				o.Fail(Failure{Oracle: "throw-aborts", Key: "rethrow-does-not-abort:" + t.name, Input: t.src, Detail: fmt.Sprintf("statements after a `throw e` in a catch block ran: trace %v, error %v", res.trace, res.err)})
 				break
 			}
+		}
+		if t.name == "empty-message-uncaught" && res.err == nil {
+			o.Fail(Failure{Oracle: "throw-aborts", Key: "rethrow-lost:" + t.name, Input: t.src, Detail: "throw \"\" was not reported to the host"})
 		}
 		if reachedCatch && res.err == nil {
 			o.Fail(Failure{Oracle: "throw-aborts", Key: "rethrow-lost:" + t.name, Input: t.src, Detail: fmt.Sprintf("the catch block threw its error again but the host got no error (trace %v)", res.trace)})
